@@ -71,10 +71,12 @@ type Write struct {
 }
 
 var rec = hx.NewRecorder("C15",
-	"cases are drawn up front: configuration in {replicator A->B, B subscribed via pubsub, both}, 1-4 document slots, "+
-		"4-12 steps from {write (create/update n, increment counter c, write added field e, delete), PatchSchema add-field on both nodes, "+
-		"close B's peer, reopen B's peer on the same key and port, checkpoint, SetReplicator}, with step weights depending on the simulated "+
-		"state (B up/down, patched) and optional bursts of writes issued concurrently with an outage event; "+
+	"cases are drawn up front: configuration in {replicator A->B, B subscribed to the collection via pubsub, both} x {B bootstraps from A or not} "+
+		"x {collection @branchable or not} x {pubsub enabled on A or not (replicator only)}, 1-4 document slots, "+
+		"5-14 steps from {write (create, update register n, increment counter c, write an added field, delete), PatchSchema add-field (up to two; on both nodes or on A only), "+
+		"close B's peer, reopen B's peer on the same key and port (each optionally with a burst of 1-5 writes issued concurrently), pause 50ms-5s, checkpoint, SetReplicator}; "+
+		"step weights depend on the simulated state (B up/down, writes in this outage, patches so far) so that outages, writes during and after them and patches during them dominate; "+
+		"half of the cases avoid the triggers of the listed known findings by construction; "+
 		"non-trivial = at least one write while B's peer was down and at least one write after it came back; distinct by case JSON",
 	"only A writes; B's database stays open while its peer is closed (peer-only outage), B reopens on the same key and port",
 	"net.PushTimeout shortened to 2s and retry intervals to 50-200ms; retryLoopInterval (2s) unchanged",
@@ -114,10 +116,13 @@ const sigRetryCollectionID = "C15/obligation-lost/retry-push-names-schema-versio
 
 func drawCase(t *rapid.T) Case {
 	c := Case{}
-	// Search past the known finding: half of the cases avoid its trigger by construction (at most
-	// one patch, always on both nodes, so a retried commit's schema version is B's active version).
+	// Search past the known findings: half of the cases avoid every listed trigger by construction
+	// (at most one patch and always on both nodes, so a retried commit's schema version is B's
+	// active version; no branchable collection; pubsub enabled on A), the other half keeps
+	// observing them. A switch only applies while its signature is listed as known.
+	avoid := rapid.Bool().Draw(t, "avoid-known")
 	maxPatches, allowAOnly := 2, true
-	if rec.KnownSwitch(sigRetryCollectionID) && rapid.Bool().Draw(t, "avoid-known") {
+	if avoid && rec.KnownSwitch(sigRetryCollectionID) {
 		maxPatches, allowAOnly = 1, false
 	}
 	c.Config = rapid.SampledFrom([]string{"rep", "rep", "rep", "both", "both", "pubsub"}).Draw(t, "config")
@@ -126,13 +131,10 @@ func drawCase(t *rapid.T) Case {
 	}
 	c.NDocs = rapid.IntRange(1, 4).Draw(t, "ndocs")
 	c.Boot = rapid.IntRange(0, 3).Draw(t, "boot") == 0
-	// two more known findings with a switch each: branchable collections, pubsub disabled on A
-	avoidBr := rec.KnownSwitch(sigCollectionRetry) && rapid.Bool().Draw(t, "avoid-known-branchable")
-	avoidPs := rec.KnownSwitch(sigPubSubOff) && rapid.Bool().Draw(t, "avoid-known-pubsuboff")
-	if !avoidBr {
+	if !(avoid && rec.KnownSwitch(sigCollectionRetry)) {
 		c.Branchable = rapid.IntRange(0, 3).Draw(t, "branchable") >= 2
 	}
-	if !avoidPs && c.Config == "rep" {
+	if !(avoid && rec.KnownSwitch(sigPubSubOff)) && c.Config == "rep" {
 		c.APubSubOff = rapid.IntRange(0, 5).Draw(t, "pubsuboff") >= 4
 	}
 	hasRep := c.Config != "pubsub"
@@ -375,8 +377,8 @@ func labelsOf(c Case, s shape) []string {
 	if s.supersededPending {
 		l = append(l, "pending-retry-at-superseded-version")
 	}
-	if s.patched <= 1 && !s.patchAOnly {
-		l = append(l, "known-trigger-absent")
+	if s.patched <= 1 && !s.patchAOnly && !c.Branchable && !c.APubSubOff {
+		l = append(l, "known-triggers-absent")
 	}
 	if s.longOutage {
 		l = append(l, "retry-attempted-while-b-still-down")
